@@ -71,6 +71,7 @@ def case(draw, ocr=False):
             tr["sp"] = draw(st.sampled_from(sorted(OCR)))
             tr["picks"] = draw(st.lists(st.integers(0, 2), min_size=3, max_size=3))
         else:
+            tr["case"] = draw(st.sampled_from(["asis", "asis", "lower", "upper"]))
             tr["missing"] = draw(st.sampled_from(["none", "none", "both", "ns", "ew"]))
             table = {"none": FULL, "both": NO_BOTH, "ns": NO_NS, "ew": NO_EW}[tr["missing"]]
             tr["sp"] = draw(st.sampled_from(sorted(table)))
@@ -79,7 +80,7 @@ def case(draw, ocr=False):
         trs.append(tr)
     return {
         "trs": trs, "sep": draw(st.sampled_from([", ", "\n", ";\n", "\n\n"])), "tsep": draw(st.sampled_from([" ", "\n", ", "])),
-        "channel": draw(st.sampled_from(["config", "config_long", "kw", "master", "master_late", "none"])),
+        "channel": draw(st.sampled_from(["config", "config_long", "kw", "kw_over_config", "master", "master_late", "none"])),
         "dns": draw(st.sampled_from("ns")), "dew": draw(st.sampled_from("ew")), "ocr": ocr,
     }
 
@@ -89,8 +90,13 @@ def tr_text(tr, ocr=False):
     t, r = str(tr["twp"]), str(tr["rge"])
     if ocr:
         t, r = lookalike(t, tr["picks"]), lookalike(r, tr["picks"][::-1])
-    return table[tr["sp"]].format(t=t, r=r, N=tr["ns"].upper(), W=tr["ew"].upper(), n=tr["ns"], w=tr["ew"],
-                                  North=_WORD[tr["ns"]], West=_WORD[tr["ew"]])
+    out = table[tr["sp"]].format(t=t, r=r, N=tr["ns"].upper(), W=tr["ew"].upper(), n=tr["ns"], w=tr["ew"],
+                                 North=_WORD[tr["ns"]], West=_WORD[tr["ew"]])
+    if not ocr and tr.get("case") == "lower":
+        out = out.lower()
+    elif not ocr and tr.get("case") == "upper":
+        out = out.upper()
+    return out
 
 
 def text_of(c):
@@ -134,6 +140,11 @@ def oracle(c):
         elif ch == "kw":
             d = PLSSDesc(text, wait_to_parse=True)
             d.parse(default_ns=dns, default_ew=dew, ocr_scrub=bool(c["ocr"]))
+        elif ch == "kw_over_config":
+            # the config string says the opposite; the keyword wins
+            opp = ",".join(x for x in ({"n": "s", "s": "n"}[dns], {"e": "w", "w": "e"}[dew], ocr_cfg) if x)
+            d = PLSSDesc(text, config=opp, wait_to_parse=True)
+            d.parse(default_ns=dns, default_ew=dew)
         elif ch == "master":
             MasterConfig.default_ns, MasterConfig.default_ew = dns, dew
             d = PLSSDesc(text, config=ocr_cfg)
@@ -187,6 +198,7 @@ def nontrivial(c):
 def classes(c):
     out = {f"channel={c['channel']}", f"n={len(c['trs'])}"}
     for tr in c["trs"]:
+        out.add(f"case={tr.get('case', 'asis')}")
         out.add(f"missing={tr['missing']}")
         out.add(f"sp={tr['missing']}:{tr['sp']}")
     nums = [(tr["twp"], tr["rge"]) for tr in c["trs"]]
@@ -205,7 +217,7 @@ def render(c):
 SUBS = [
     Sub("spellings", oracle, strategy=lambda tier: case(), validate=validate, nontrivial=nontrivial, classes=classes, render=render,
         n={"quick": 1000, "thorough": 15000}, shards={"quick": 8, "thorough": 16},
-        essential=("missing=both", "missing=ns", "missing=ew", "channel=config", "channel=kw", "channel=master", "channel=master_late", "same_numbers_twice",
+        essential=("missing=both", "missing=ns", "missing=ew", "channel=config", "channel=kw", "channel=master", "channel=master_late", "channel=kw_over_config", "case=lower", "case=upper", "same_numbers_twice",
                    "number_substring_collision")),
     Sub("ocr", oracle, strategy=lambda tier: case(ocr=True), validate=validate, nontrivial=nontrivial, classes=classes, render=render,
         n={"quick": 500, "thorough": 6000}, shards={"quick": 4, "thorough": 16}),
